@@ -348,10 +348,12 @@ func c15runPublic(cs *c15case, tms int, useGaps bool) (o c15obs) {
 	}
 	var reads [][]byte
 	rdDone := make(chan struct{})
+	limit := len(cs.opening) + len(cs.tail) + 256
 	go func() {
 		defer close(rdDone)
 		var acc []byte
-		for {
+		// bounded: a Read that keeps returning bytes the server never sent must not run away
+		for len(reads) < 256 && len(acc) <= limit {
 			b, err := tr.Read()
 			if len(b) > 0 {
 				reads = append(reads, append([]byte{}, b...))
@@ -367,8 +369,18 @@ func c15runPublic(cs *c15case, tms int, useGaps bool) (o c15obs) {
 	case <-time.After(3 * time.Second):
 	}
 	tr.Close(true)
-	<-rdDone
-	<-srvDone
+	select {
+	case <-rdDone:
+	case <-time.After(5 * time.Second):
+		o.setupErr = "Read did not return after Close"
+		return o
+	}
+	select {
+	case <-srvDone:
+	case <-time.After(25 * time.Second):
+		o.setupErr = "loopback server did not finish"
+		return o
+	}
 	o.reads, o.recv = reads, recv
 	// were all segments written inside the window the client waits for the next byte?
 	// (first byte: TimeoutSocket/4 after the dial; then TimeoutSocket/2 after each byte)
@@ -516,6 +528,13 @@ func runC15(c *ctx) {
 	res.InternalTie = c15InternalAvailable
 	if c15InternalAvailable {
 		states := [][]byte{{}, {c15IAC}, {c15IAC, c15DO}, {c15IAC, c15DONT}, {c15IAC, c15WILL}, {c15IAC, c15WONT}}
+		if c.thorough() {
+			// control buffers the loop cannot produce (the model is stated for them as well)
+			for y := 0; y < 251; y++ {
+				states = append(states, []byte{c15IAC, byte(y)})
+			}
+			states = append(states, []byte{'a'}, []byte{'a', c15DO}, []byte{c15IAC, c15DO, 3}, []byte{1, 2, 3, 4})
+		}
 		var sl []string
 		for _, st := range states {
 			for b := 0; b < 256; b++ {
@@ -553,7 +572,7 @@ func runC15(c *ctx) {
 		}
 		res.Exhaustive = true
 		res.ExhaustiveOf = "handleControlCharResponse step: 6 reachable control states x 256 input bytes (ctrlBuf', initialBuf', writes)"
-		res.Note("exhaustive step correspondence: 1536 (state, byte) pairs through the overlay export with a recording net.Conn")
+		res.Note("exhaustive step correspondence: %d (state, byte) pairs (6 reachable states x 256 bytes first) through the overlay export with a recording net.Conn", len(sl))
 	} else {
 		res.Note("internal tie unavailable: step correspondence and stream-level internal oracle skipped; public-level tie only")
 	}
@@ -649,14 +668,28 @@ func runC15(c *ctx) {
 		if len(again) == 0 {
 			break
 		}
-		// a genuine defect makes many cases fail; do not spend the budget repeating all of them
-		if len(again) > 48 {
-			again = again[:48]
+		// a genuine defect makes many cases fail and none recover: repeat in chunks and stop at the
+		// first chunk in which nothing recovered, so the budget is not spent repeating all of them
+		for len(again) > 0 {
+			chunk := again
+			if len(chunk) > 48 {
+				chunk = chunk[:48]
+			}
+			again = again[len(chunk):]
+			for range chunk {
+				res.Count("public:repeat-with-wide-window")
+			}
+			runBatch(chunk, attempt)
+			recovered := 0
+			for _, i := range chunk {
+				if k, _, _ := judge(i, obs[i]); k == "" {
+					recovered++
+				}
+			}
+			if recovered == 0 {
+				break
+			}
 		}
-		for range again {
-			res.Count("public:repeat-with-wide-window")
-		}
-		runBatch(again, attempt)
 	}
 	var readLines []string
 	var readIdx []int
